@@ -1,4 +1,4 @@
-// Shared by batcher_tokio_ctx.vx and batcher_tokio_ctx_pre.vx: the CALLING-CONTEXT model of the tokio calls that
+// Model file of batcher_tokio_ctx.vx: the CALLING-CONTEXT model of the tokio calls that
 // batcher/src/tokio.rs `blocking_flush` / `blocking_send` make, taken from tokio 1.x's documented panics
 // (tokio 1.53.1: runtime/handle.rs `Handle::block_on` "# Panics ... called from within an asynchronous context, such as
 // inside Runtime::block_on, Handle::block_on, or from a function annotated with tokio::main"; task/blocking.rs
@@ -48,6 +48,12 @@ impl Ctx {
     }
 }
 
+/// Permission for ONE flush / send attempt. The wrapper is handed exactly one; `flush`, `send` and `sync::blocking_*`
+/// consume it (by value, it is not `Copy` and nothing constructs one); the `block_in_place` closure captures it by move.
+/// Together with the outcome postcondition: EXACTLY one attempt is made, with the wrapper's own sender / message /
+/// timeout, and its result is what the wrapper returns (what batcher_blocking.vx used to state over its call log).
+pub tracked struct Once { pub ghost x: int }
+
 pub uninterp spec fn dur_total_nanos(d: Duration) -> nat;
 pub uninterp spec fn item_id<I>(x: I) -> int;
 
@@ -84,11 +90,11 @@ pub mod sync {
     // neither panics nor deadlocks, because the channel's receiver runs on a thread of its own
     // (`emit_batcher::tokio::spawn` / the OTLP worker thread), never on the caller's runtime.
     #[verifier::external_body]
-    pub fn blocking_flush<T: Channel>(sender: &Sender<T>, timeout: Duration) -> (r: bool)
+    pub fn blocking_flush<T: Channel>(sender: &Sender<T>, timeout: Duration, once: Tracked<Once>) -> (r: bool)
         ensures flush_outcome(sender.id(), dur_total_nanos(timeout), r),
     { unimplemented!() }
     #[verifier::external_body]
-    pub fn blocking_send<T: Channel>(sender: &Sender<T>, msg: T::Item, timeout: Duration) -> (r: Result<(), BatchError<T::Item>>)
+    pub fn blocking_send<T: Channel>(sender: &Sender<T>, msg: T::Item, timeout: Duration, once: Tracked<Once>) -> (r: Result<(), BatchError<T::Item>>)
         ensures
             send_outcome(sender.id(), item_id(msg), dur_total_nanos(timeout), r.is_ok()),
             r is Err ==> returned_item(r) == Some(msg) || returned_item(r) is None,
@@ -143,7 +149,7 @@ pub mod tokio {
 
         /// PANICS on a current-thread runtime; runs `f` once, on this thread, in the context `cx.in_place()`, and
         /// returns its result. (tokio: `F: FnOnce() -> R`; here the closure is handed the token of the context it
-        /// runs in - R9, `//@replace-each R9 cparams` writes the parameter.)
+        /// runs in - R9, `//@replace-each R9 cparams` writes the parameter; the attempt permission is captured by move.)
         #[verifier::external_body]
         pub fn block_in_place<F: FnOnce(Tracked<&Ctx>) -> R, R>(f: F, cx: Tracked<&Ctx>) -> (r: R)
             requires
@@ -160,11 +166,11 @@ pub mod tokio_rs_async {
     use crate::*;
     // tokio.rs `flush` / `send` (bodies under contract in batcher_blocking.vx: `flush_at` / `send_at`)
     #[verifier::external_body]
-    pub async fn flush<T: Channel>(sender: &Sender<T>, timeout: Duration) -> (r: bool)
+    pub async fn flush<T: Channel>(sender: &Sender<T>, timeout: Duration, once: Tracked<Once>) -> (r: bool)
         ensures flush_outcome(sender.id(), dur_total_nanos(timeout), r),
     { unimplemented!() }
     #[verifier::external_body]
-    pub async fn send<T: Channel>(sender: &Sender<T>, msg: T::Item, timeout: Duration) -> (r: Result<(), BatchError<T::Item>>)
+    pub async fn send<T: Channel>(sender: &Sender<T>, msg: T::Item, timeout: Duration, once: Tracked<Once>) -> (r: Result<(), BatchError<T::Item>>)
         ensures
             send_outcome(sender.id(), item_id(msg), dur_total_nanos(timeout), r.is_ok()),
             r is Err ==> returned_item(r) == Some(msg) || returned_item(r) is None,
